@@ -7,7 +7,10 @@ with monitoring wrappers (host, stream, resource scope, connection, store, acces
 the public interfaces: for squares of width 1, 2, 4 every sample / row / namespace / range / the whole
 square is requested and the decoded reply must verify and equal the reference; every state of the
 specification is materialised as raw bytes (every field at bound, bound+1, max; every wrong length;
-invalid namespaces; from >= to; huge reservations; random bytes) under every injected fault; after
+invalid namespaces; from >= to; huge reservations; random bytes) under every injected fault; a last
+phase repeats, over two real libp2p hosts on loopback TCP with the bridge's resource-manager limits,
+what a mock network cannot show (a requester that goes silent, a reservation the real resource manager
+refuses); after
 each hostile request a normal one must still be served; accessor open/close and memory
 reserve/release are balanced per run; every handler run's call sequence is validated by TLC against
 the specification (ShrexTrace.tla).
@@ -26,10 +29,11 @@ META = {
                   "reference square, (b) sending every malformed / out-of-bounds class of the lattice as raw bytes under "
                   "every injectable fault and comparing what the requester sees with the specification, (c) validating "
                   "the ordered calls of every one of the handler runs (thousands) against the specification with TLC.",
-    "level_note": "Network is libp2p mocknet: stream deadlines are no-ops there, so a requester that sends nothing and "
-                  "keeps the stream open (read time-out path) is not exercised; reset codes are not visible to the "
-                  "requester. The resource scope is the harness' (512 MiB per reservation), the rate limiter is the "
-                  "real one (drained from one address). A request with surplus bytes after a valid identifier is served "
+    "level_note": "Most runs use libp2p mocknet (stream deadlines are no-ops there and reset codes are invisible to the "
+                  "requester; the resource scope is the harness' with 512 MiB per reservation; the rate limiter is the "
+                  "real one, drained from one address). Silent requesters and the real resource manager's refusal are "
+                  "exercised in a short phase over real loopback TCP hosts (skipped with a note if loopback sockets are "
+                  "unavailable). A request with surplus bytes after a valid identifier is served "
                   "as that identifier (the surplus is never read) and is not counted as malformed. A range over "
                   "several namespaces is answered INTERNAL (the builder refuses it) and is treated as not servable. "
                   "Panics caught by the recovery middleware with accessor closed and memory released satisfy the "
@@ -81,6 +85,13 @@ def run(ctx):
     low = {k: cnt.get(k, 0) for k, v in need.items() if cnt.get(k, 0) < v}
     if low and summ:
         ctx.inconclusive("vacuity: the driver did not exercise enough of: %s" % low)
+    if summ.get("real_transport_skipped"):
+        ctx.note("real-transport phase skipped (no loopback TCP?): %s" % summ["real_transport_skipped"])
+    elif summ and (cnt.get("real_transport_normal_ok", 0) < 3 or cnt.get("real_transport_silent_requester_ended", 0) < 2
+                   or cnt.get("real_transport_reservation_refused_with_limit_code", 0)
+                   + cnt.get("real_transport_reservation_refused_other_reset", 0) < 1):
+        if not rep.get("violations"):
+            ctx.inconclusive("vacuity: the real-transport phase did not complete: %s" % {k: v for k, v in cnt.items() if k.startswith("real_")})
     if cnt.get("unplanned_runs", 0):
         ctx.note("%d handler runs were not planned by the driver" % cnt["unplanned_runs"])
 
